@@ -131,7 +131,8 @@ def install(ctx, repo, probes):
         ctx.target("shift/fmt%d/single" % fmt, "shift/fmt%d/series" % fmt)
     ctx.target("sibling/repetitions", "sibling/start", "sibling/end",
                "sibling/interval", "sibling/interval-regrouped",
-               "twin/zone", "twin/representation",
+               "sibling/tiny-interval",
+               "twin/zone", "twin/representation", "twin/end-of-day",
                "twin/units", "roundtrip/fmt1", "roundtrip/fmt3",
                "roundtrip/fmt4", "roundtrip/cross-mode")
 
@@ -185,6 +186,34 @@ def run_case(ctx, repo, case):
                 else:
                     ctx.cls("sibling/" + what)
                 ctx.nontrivial((dkey, "sibling", what))
+            # intervals at the small end of the scale: binary fractions of a
+            # microsecond are still different intervals, and not "no interval"
+            fmt = rec._format_number
+            if fmt in (3, 4) and rec._repetitions != 1 and \
+                    rec._duration is not None:
+                key = "start_point" if fmt == 3 else "end_point"
+                anchor = rec._start_point if fmt == 3 else rec._end_point
+                tiny = []
+                for secs in (2.0 ** -21, 2.0 ** -22, 0):
+                    try:
+                        tiny.append(repo.TimeRecurrence(
+                            repetitions=rec._repetitions,
+                            duration=repo.Duration(seconds=secs),
+                            **{key: anchor}))
+                    except ValueError:
+                        tiny = None
+                        break
+                if tiny:
+                    t1, t2, t0 = tiny
+                    if (t1 == t2) is not False or (t1 == t0) is not False \
+                            or (t2 == t0) is not False:
+                        ctx.violation(
+                            "sibling.tiny-interval", "recurrences with "
+                            "intervals of 2**-21 s, 2**-22 s and no interval "
+                            "compare equal: %s, %s, %s" % (
+                                _rk(t1), _rk(t2), _rk(t0)))
+                    else:
+                        ctx.cls("sibling/tiny-interval")
         elif op == "twins":
             ctx.ev("twins")
             rng = __import__("random").Random(case["seed"])
@@ -337,9 +366,32 @@ def twin_variants(repo, rng, mode, rec):
         return repo.tp(gen.tp_from_instant(
             rng, mode, inst, rep=rep, allow_2400=False,
             offset=(p._time_zone._hours, p._time_zone._minutes)))
+    def eod(p):
+        """the other spelling of a local midnight, same representation and
+        offset: 24:00 of the day before <-> 00:00:00"""
+        rep, date = R.tp_date(p)
+        rd = R.date_to_rd(mode, rep, date)
+        if p._hour_of_day == 24:
+            kw = gen.date_kwargs(mode, rep, rd + 1)
+            kw.update(hour_of_day=0, minute_of_hour=0, second_of_minute=0)
+        else:
+            kw = gen.date_kwargs(mode, rep, rd - 1)
+            kw.update(hour_of_day=24)
+        kw.update(gen.zone_kwargs((p._time_zone._hours,
+                                   p._time_zone._minutes)))
+        return repo.tp(kw)
     out = []
     exact = rec._duration is None or R.dur_is_exact(rec._duration)
     dur0 = rec._duration if rec._duration is not None else repo.Duration()
+    anchor = rec._end_point if fmt == 4 else rec._start_point
+    if exact and fmt in (3, 4) and anchor is not None and \
+            R.tp_sod(anchor) in (0, 86400) and R.tp_is_integral(anchor):
+        kw = {"repetitions": rec._repetitions, "duration": dur0}
+        kw["end_point" if fmt == 4 else "start_point"] = eod(anchor)
+        try:
+            out.append(("end-of-day", repo.TimeRecurrence(**kw)))
+        except ValueError:
+            pass
     for what in ("zone", "representation"):
         if not exact:
             continue   # a nominal far anchor depends on the spelling
@@ -402,6 +454,11 @@ def workload(ctx, repo):
         elif v == 2:
             case = {"op": "siblings", "desc": desc}
         elif v == 3:
+            if k % 3 == 0 and not recgen.is_nominal(desc):
+                # anchor at local midnight: it has an end-of-day (24:00
+                # of the previous day) twin in the same offset
+                a = desc["end"] if desc["fmt"] == 4 else desc["start"]
+                a.update(hour_of_day=0, minute_of_hour=0, second_of_minute=0)
             case = {"op": "twins", "desc": desc,
                     "seed": rng.randrange(10**9)}
         else:
